@@ -308,6 +308,9 @@ where
             classes.reverse();
         }
 
+        // strided or reversed views have no slice; they are copied into standard layout
+        let targets = targets.as_standard_layout();
+        let ground_truth = ground_truth.as_standard_layout();
         let indices = map_prediction_to_idx(
             targets.as_slice().unwrap(),
             ground_truth.as_slice().unwrap(),
@@ -505,7 +508,7 @@ impl BinaryClassification<&[bool]> for &[Pr] {
 
 impl<D: Data<Elem = Pr>> BinaryClassification<&[bool]> for ArrayBase<D, Ix1> {
     fn roc(&self, y: &[bool]) -> Result<ReceiverOperatingCharacteristic> {
-        self.as_slice().unwrap().roc(y)
+        self.as_standard_layout().as_slice().unwrap().roc(y)
     }
 
     fn log_loss(&self, y: &[bool]) -> Result<f32> {
@@ -534,8 +537,10 @@ impl<R: Records, R2: Records, T: AsSingleTargets<Elem = bool>, T2: AsSingleTarge
 {
     fn roc(&self, y: &DatasetBase<R, T>) -> Result<ReceiverOperatingCharacteristic> {
         let targets = self.as_targets();
+        let targets = targets.as_standard_layout();
         let targets = targets.as_slice().unwrap();
         let y_targets = y.as_targets();
+        let y_targets = y_targets.as_standard_layout();
         let y_targets = y_targets.as_slice().unwrap();
 
         targets.roc(y_targets)
@@ -545,6 +550,7 @@ impl<R: Records, R2: Records, T: AsSingleTargets<Elem = bool>, T2: AsSingleTarge
     fn log_loss(&self, y: &DatasetBase<R, T>) -> Result<f32> {
         let probabilities = self.as_single_targets();
         let y_targets = y.as_targets();
+        let y_targets = y_targets.as_standard_layout();
         let y_targets = y_targets.as_slice().unwrap();
 
         probabilities.log_loss(y_targets)
